@@ -26,7 +26,7 @@ def gen(rng, tier):
             if kind == "order":
                 E = list(D)
                 for _ in range(rng.randint(0, 2)): E[rng.randrange(n)] += rng.choice([-1, 1, 1])
-                c.update({"E": E, "q2": q if rng.random() < 0.8 else (q + 1) % n})
+                c.update({"E": E, "q2": q if rng.random() < 0.8 else (q + 1) % n, "other": rng.choice([None, None, None, "mult", "edge", "vset"]) if n >= 2 else None})
         elif kind == "parking":
             n = rng.randint(0, 6); a = [rng.randint(0 if rng.random() < 0.2 else 1, n + (1 if rng.random() < 0.2 else 0)) for _ in range(n)]
             if rng.random() < 0.5 and n: a = sorted(rng.randint(1, i + 1) for i in range(n)); rng.shuffle(a)
@@ -70,7 +70,15 @@ def impl(c):
         if S: out["outdeg"] = [cfg.get_out_degree_S(names[v], {names[x] for x in S}) for v in S]
     elif k == "sstable": out["ss"] = bool(cfg.is_superstable())
     elif k == "order":
-        e = common.build_impl_divisor(c["G"], c["E"], rng=rng); cf2 = CFConfig(e, names[c["q2"]]); r = []
+        G2 = c["G"]; E2 = c["E"]
+        if c.get("other") == "mult" and G["edges"]:
+            G2 = common.mk_graph_like(G, [list(x) for x in G["edges"]] + [[G["edges"][0][0], G["edges"][0][1], 1]])
+        elif c.get("other") == "edge":
+            non = [(a, b) for a in range(n) for b in range(a + 1, n) if not any(x[0] == a and x[1] == b for x in G["edges"])]
+            G2 = common.mk_graph_like(G, [list(x) for x in G["edges"]] + ([[non[0][0], non[0][1], 1]] if non else [[0, 1, 1]] if n >= 2 else []))
+        elif c.get("other") == "vset":
+            G2 = {"n": n + 1, "names": names + ["zz_extra"], "edges": [list(x) for x in G["edges"]] + [[0, n, 1]]}; E2 = list(c["E"]) + [0]
+        e = common.build_impl_divisor(G2, E2, rng=rng); cf2 = CFConfig(e, names[c["q2"]]); r = []
         for f in (lambda: cfg <= cf2, lambda: cfg == cf2, lambda: cfg < cf2, lambda: cfg >= cf2, lambda: cfg > cf2):
             try: r.append(bool(f()))
             except ValueError: r.append("err")
@@ -113,7 +121,7 @@ def judge(c, r, mo):
         if o["ss"] != (mo[0][0] == "1") or mo[0][0] != mo[0][1]: out.append({"what": "is_superstable(c=%s, q=%d) = %s, model %s" % (c["D"], c["q"], o["ss"], mo[0])})
     elif k == "order":
         le, eq, lt, ge, gt = [x == "1" for x in mo[0]]
-        exp = [le, eq, lt, ge, gt] if c["q2"] == c["q"] else ["err", False, "err", "err", "err"]
+        exp = [le, eq, lt, ge, gt] if (c["q2"] == c["q"] and not (c.get("other") and c["G"]["n"] >= 2)) else ["err", False, "err", "err", "err"]     # another sink or another graph: incomparable
         if o["cmp"] != exp: out.append({"what": "comparisons (<=,==,<,>=,>) of %s and %s (q=%d,q'=%d): %s, model %s" % (c["D"], c["E"], c["q"], c["q2"], o["cmp"], exp)})
     else:
         if o["count"] != int(mo[0][0]) or o["det"] != int(mo[0][1]) or o["count"] != o["det"]:
@@ -139,7 +147,7 @@ def oracle(c, r):
         return {"violates": o["legal"] != exp, "expected": exp}
     if k == "sstable": return {"violates": o["ss"] != O.is_reduced(m, D, q), "expected": O.is_reduced(m, D, q)}
     if k == "order":
-        if c["q2"] != q: return {"violates": o["cmp"] != ["err", False, "err", "err", "err"]}
+        if c["q2"] != q or (c.get("other") and n >= 2): return {"violates": o["cmp"] != ["err", False, "err", "err", "err"]}
         vs = [v for v in range(n) if v != q]; E = c["E"]; le = all(D[v] <= E[v] for v in vs); ge = all(D[v] >= E[v] for v in vs); eq = all(D[v] == E[v] for v in vs)
         return {"violates": o["cmp"] != [le, eq, le and not eq, ge, ge and not eq]}
     return {"violates": o["count"] != o["det"], "count": o["count"], "det": o["det"]}
